@@ -13,12 +13,13 @@ Recs == ndJsonDeserialize(IOEnv.TRACE)
 
 SingleStep == {"mkdir_p", "mkdir_m", "mkfile", "remove", "remove_all", "move_p", "copy", "symlink", "set_cwd", "append_all", "write_all",
                "read_all", "read_lines", "read", "exists", "is_dir", "is_file", "is_symlink", "is_symlink_dir", "is_symlink_file", "is_exec",
-               "is_readonly", "mode", "owner", "uid", "gid", "readlink", "readlink_abs", "cwd", "root", "entry", "abs"}
+               "is_readonly", "mode", "owner", "uid", "gid", "readlink", "readlink_abs", "cwd", "root", "entry", "abs",
+               "paths", "dirs", "files", "all_paths", "all_dirs", "all_files"}       \* "listing snapshots"
 WriteOps == {"mkdir_p", "mkdir_m", "mkfile", "remove", "remove_all", "move_p", "copy", "symlink", "set_cwd", "append_all", "write_all"}
 
-\* the tree every run starts from (harness: default_tree): /a directory, /f file "0"
+\* the tree every run starts from (harness: default_tree): /a/c directories, /f file "0"
 Init0 == [fs |-> (Root :> NDir(MemOwn)), cwd |-> Root]
-InitSt == LET a == Op_mkdir_p(Init0, MemOwn, <<"a">>).st IN Op_write_all(a, MemOwn, <<"f">>, <<48>>).st
+InitSt == LET a == Op_mkdir_p(Init0, MemOwn, <<"a", "c">>).st IN Op_write_all(a, MemOwn, <<"f">>, <<48>>).st
 
 \* ---- sequential step on a SET of candidate states (outcomes the documentation leaves open branch) ----
 NextStates(s, c, got) == LET o == Expected(s, c, MemOwn) IN
